@@ -14,6 +14,7 @@ EXTRA_FILES = {
     'C11': ['dbus/dbus-connection.c'],
     'C05': ['dbus/dbus-message.c'],
     'C19': ['bus/activation-helper-bin.c', 'bus/config-parser-trivial.c'],
+    'C13': ['dbus/dbus-connection.c', 'dbus/dbus-transport.c'],   # the size limit travels connection -> transport -> loader
     'C14': ['bus/config-parser.c', 'bus/config-parser-common.c', 'bus/policy.c', 'bus/config-loader-expat.c'],
 }
 
@@ -347,6 +348,8 @@ def constant_args_profile(f):
             nm = None
             if is_int(x) and x.get('name'):
                 nm = x['name']
+            elif is_int(x) and not x.get('implicit') and 2 <= abs(x.get('v', 0)) <= 65536:
+                nm = 'int:%d' % x['v']          # a literal size / count / index (0 and 1 are too common to mean much)
             elif x.get('k') == 'str' and isinstance(x.get('v'), str) and '.' in x['v'] and \
                     _NAME_RE.match(x['v']):
                 nm = 'str:' + x['v']          # a dotted name literal (error name, interface, bus name)
@@ -1248,6 +1251,18 @@ def condition_functions(ck, prog):
         if not ref:
             continue
         cur = condition_tables(f)
+        # a condition that lost one of its operands
+        for rk in ref:
+            if rk in cur:
+                continue
+            rl = set(rk.split(' | '))
+            subs = [ck2 for ck2 in cur if ck2 not in ref and set(ck2.split(' | ')) < rl
+                    and len(set(ck2.split(' | '))) == len(rl) - 1]
+            if len(subs) == 1 and len(rl) >= 3:
+                n += 1
+                lost = sorted(rl - set(subs[0].split(' | ')))
+                r.violation('%s:%s' % (f.name, rk[:80]), f.name, f.file, f.line,
+                            'the condition over {%s} no longer tests %s' % (rk, ', '.join(lost)))
         for key, tabs in cur.items():
             if key not in ref or len(ref[key]) != len(tabs):
                 continue
@@ -1304,6 +1319,233 @@ def never_set_values(ck, prog):
         r.ok('no-sentinel-only-value-handed-on')
 
 
+# ---------------------------------------------------------------------------
+# fields of a fresh object are read after they are given their value
+
+ZERO_ALLOCATORS = ('dbus_malloc0', 'calloc')
+
+
+def fresh_object_reads(f):
+    """[(line, field expr, line of the later store)] - reads of p->F where p is the zero-filled object this function
+    just allocated, F has not been stored on some path to the read, and a plain store to p->F follows the read."""
+    from .cfg import estr, is_ref, is_call, walk, written_lvalues, event_expr
+    out = []
+    fresh = {}
+    for b, i, ev in f.events():
+        for lhs, how, rhs in written_lvalues(ev):
+            x = rhs
+            while isinstance(x, dict) and x.get('k') in ('cast', 'paren'):
+                x = x['e']
+            if isinstance(x, dict) and is_call(x) and x.get('callee') in ZERO_ALLOCATORS and \
+                    (is_ref(lhs) or 'k' not in lhs) and lhs.get('kind') == 'local' and 'id' in lhs:
+                fresh.setdefault(lhs['id'], []).append((b, i))
+    for vid, sites in fresh.items():
+        if len(sites) != 1:
+            continue
+        b0, i0 = sites[0]
+
+        def root(e):
+            while e is not None and e.get('k') in ('member', 'paren', 'cast', 'sub'):
+                e = e.get('base') if e.get('k') in ('member', 'sub') else e.get('e')
+            return e
+
+        def is_field(e):
+            if e.get('k') != 'member':
+                return False
+            rt = root(e)
+            return rt is not None and is_ref(rt) and rt.get('id') == vid
+
+        TOP = None          # everything may have been stored (the object was handed to other code)
+
+        def transfer(bid, start, written, collect):
+            blk = f.blocks[bid]
+            for idx in range(start, len(blk['events'])):
+                ev = blk['events'][idx]
+                stores = [(lhs, how) for lhs, how, rhs in written_lvalues(ev) if lhs.get('k') == 'member' and is_field(lhs)]
+                lhs_ids = {id(l) for l, h in stores}
+                if collect is not None and written is not TOP:
+                    tops = []
+                    if ev['ev'] == 'assign':
+                        tops = [ev['e'].get('r')] + ([ev['e'].get('l')] if ev['e'].get('op') != '=' else [])
+                    elif ev['ev'] == 'decl':
+                        tops = [ev.get('init')]
+                    elif ev['ev'] == 'return':
+                        tops = [ev.get('e')]
+                    elif ev['ev'] == 'call':
+                        tops = list(ev['e']['args'])
+                    for top in tops:
+                        if not isinstance(top, dict):
+                            continue
+                        for x in walk(top):
+                            if x.get('k') == 'un' and x.get('op') == '&':
+                                continue
+                            if is_field(x) and id(x) not in lhs_ids:
+                                k = estr(x)
+                                if not any(k == w or k.startswith(w + '.') or w.startswith(k + '.') for w in written):
+                                    collect.append((bid, idx, ev['line'], k))
+                if ev['ev'] == 'call' and not (ev['e'].get('callee') or '').startswith('_dbus_real_assert'):
+                    for a in ev['e']['args']:
+                        rt = root(a['e'] if a.get('k') == 'un' and a.get('op') == '&' else a)
+                        if rt is not None and is_ref(rt) and rt.get('id') == vid:
+                            written = TOP
+                if written is not TOP:
+                    for lhs, how in stores:
+                        written = written | {estr(lhs)}
+            if collect is not None and written is not TOP:
+                t = blk.get('term')
+                if t and isinstance(t.get('cond'), dict):
+                    for x in walk(t['cond']):
+                        if is_field(x):
+                            k = estr(x)
+                            if not any(k == w or k.startswith(w + '.') or w.startswith(k + '.') for w in written):
+                                collect.append((bid, len(blk['events']), t.get('line'), k))
+            return written
+        # must-written at block entry (intersection over predecessors), blocks reachable from the allocation
+        IN = {}
+        out0 = transfer(b0, i0 + 1, frozenset(), None)
+        work = [(s2, out0) for s2 in f.blocks[b0]['succs'] if s2 is not None and s2 in f.blocks]
+        guard = 0
+        while work and guard < 5000:
+            guard += 1
+            bid, w = work.pop()
+            if bid == b0:
+                continue
+            old = IN.get(bid, 'none')
+            if old == 'none':
+                new = w
+            elif old is TOP:
+                new = w
+            elif w is TOP:
+                new = old
+            else:
+                new = old & w
+            if old != 'none' and new == old:
+                continue
+            IN[bid] = new
+            o = transfer(bid, 0, new, None)
+            for s2 in f.blocks[bid]['succs']:
+                if s2 is not None and s2 in f.blocks:
+                    work.append((s2, o))
+        reads = []
+        transfer(b0, i0 + 1, frozenset(), reads)
+        for bid, w in IN.items():
+            transfer(bid, 0, w, reads)
+        if not reads:
+            continue
+        # a plain store of the same field after the read
+        stores = {}
+        for b, i, ev in f.events():
+            for lhs, how, rhs in written_lvalues(ev):
+                if how == '=' and lhs.get('k') == 'member' and is_field(lhs) and not is_int(rhs, 0):
+                    stores.setdefault(estr(lhs), []).append((b, i, ev['line']))
+        from .cfg import reach_from
+        for bid, idx, line, k in reads:
+            for sb, si, sl in stores.get(k, []):
+                later = (sb == bid and si > idx) or (sb != bid and sb in reach_from(f, f.blocks[bid]['succs']))
+                if later:
+                    out.append((line, k, sl))
+                    break
+    return out
+
+
+def fresh_reads(ck, prog):
+    pid = ck.pid
+    files = anchor_files(pid)
+    r = ck.rule(pid + '.Z', 'a constructor reads a field of the object it is building only after giving it its value, in '
+                'this property\'s files: no read of p->F (p the zero-filled allocation of this function, not yet handed '
+                'to other code) that can be reached with F still unset and is followed by the store to p->F', 'TS',
+                breaks='a default derived from another field is computed from the zero the allocator left there, not from '
+                'the value stored two lines later: a send rule\'s requested_reply default is FALSE for allow rules',
+                floor=0)
+    n = 0
+    for f in prog.funcs.values():
+        if f.file not in files or not prog.is_production(f):
+            continue
+        for line, k, sl in fresh_object_reads(f):
+            n += 1
+            r.violation('%s:%s' % (f.name, k), f.name, f.file, line,
+                        '%s is read while it still holds the allocator\'s zero; it is given its value later (line %s)' % (k, sl))
+    if n == 0:
+        r.ok('no-read-before-store-in-constructors')
+
+
+# ---------------------------------------------------------------------------
+# which function a function calls
+
+def callee_profile(f):
+    out = {}
+    for b, i, c in f.calls():
+        cal = c.get('callee')
+        if not cal or cal.startswith('_dbus_verbose') or cal.startswith('_dbus_real_assert') or cal.startswith('__builtin'):
+            continue
+        out[cal] = out.get(cal, 0) + 1
+    return out
+
+
+def callee_identity(ck, prog):
+    pid = ck.pid
+    files = anchor_files(pid)
+    path = os.path.join(VERIF, 'engine', 'baseline_profiles.json')
+    if not os.path.exists(path):
+        return
+    with open(path) as fh:
+        allb = json.load(fh)
+    base = allb.get(getattr(ck, 'variant', 'A'), {})
+    known = set(allb.get('#functions', []))
+    r = ck.rule(pid + '.V', 'a function calls the functions it calls in the reference tree, in this property\'s files: '
+                'reported is a replacement of one callee by another where both functions exist in the reference tree '
+                'and in this tree (so neither a rename nor a new helper), with the number of calls unchanged', 'TAB',
+                breaks='a wrapper forwards to the sibling of the function it is named after (the size setter calls the '
+                       'descriptor-count setter), or a look-up goes through the accessor of the other of two similar '
+                       'things', floor=5)
+    n = 0
+    have = set(prog.by_name)
+    for f in prog.funcs.values():
+        if f.file not in files or not prog.is_production(f):
+            continue
+        ref = base.get(f.file, {}).get(f.name, {}).get('V')
+        if not ref:
+            continue
+        cur = callee_profile(f)
+        n += 1
+        gone = {k: v - cur.get(k, 0) for k, v in ref.items() if v > cur.get(k, 0)}
+        new = {k: v - ref.get(k, 0) for k, v in cur.items() if v > ref.get(k, 0)}
+        key = '%s:callees' % f.name
+        if gone and new and sum(gone.values()) == sum(new.values()) and len(gone) == 1 and len(new) == 1:
+            g, h = next(iter(gone)), next(iter(new))
+            def sig(nm):
+                fs = prog.by_name.get(nm) or []
+                return (fs[0].ret, tuple(p.get('t') for p in fs[0].params)) if fs else None
+            # siblings: same return and parameter types (the call still compiles with the same arguments)
+            if g in have and h in have and g in known and h in known and sig(g) == sig(h) and sig(g) is not None \
+                    and not any(w in g or w in h for w in ('verbose', 'warn', 'log')):
+                line = next((c['line'] for b, i, c in f.calls(h)), f.line)
+                r.violation(key, f.name, f.file, line, '%s now calls %s where the reference tree calls %s' % (f.name, h, g))
+                continue
+        r.ok(key)
+
+
+def cursor_loops(ck, prog):
+    pid = ck.pid
+    files = anchor_files(pid)
+    from . import lib
+
+    class Probe:
+        n = 0
+        def violation(self, *a, **k): self.n += 1
+        def ok(self, *a, **k): self.n += 1
+    pr = Probe()
+    lib.cursor_loops_advance(prog, pr, files, floor=0)
+    if not pr.n:
+        return
+    r = ck.rule(pid + '.G', 'every loop over a value cursor ("while the reader / iterator is not at the end") advances '
+                'that cursor on each way round, including the `continue` and skip paths, in this property\'s files '
+                '(cycles of the loop that avoid every advancing call are reported)', 'PAIR',
+                breaks='a message with an element the loop skips (an unknown header field, an argument of another '
+                'type) makes the scan look at the same element forever: the process that received it hangs', floor=1)
+    lib.cursor_loops_advance(prog, r, files, floor=1)
+
+
 def run(ck, prog):
     error_discipline(ck, prog)
     onebit_stores(ck, prog)
@@ -1317,3 +1559,6 @@ def run(ck, prog):
     list_walks(ck, prog)
     condition_functions(ck, prog)
     never_set_values(ck, prog)
+    callee_identity(ck, prog)
+    fresh_reads(ck, prog)
+    cursor_loops(ck, prog)
